@@ -82,6 +82,15 @@ def check(run, case):
     left = set(kinds)
     if lossy:
         left -= {'store-diverged-after-lost-frame'}
+    bcast_fail = (case.get('failing') and case['flags'].get('broadcast_enable') and not case['layout']['single'] and len(case['layout']['units']) >= 2
+                  and any(fr[0] == 0 and fr[2]['fc'] in (5, 6, 15, 16, 22, 23) for rd in case['reads'] for fr in rd))
+    if bcast_fail and left and left <= {'store', 'response-wrong-content', 'store-diverged-after-lost-frame'}:
+        run.region('broadcast-stops-at-failing-unit')
+        # only units that work may differ, and only by missing a broadcast write (they still hold what they held)
+        fu = int(case['failing'][0])
+        if real.get(fu) == want.get(fu):
+            run.known('broadcast-stops-at-failing-unit', 'a broadcast write stops at the first hosted unit whose datastore raises: the units after it in the context are not written', case)
+            return False
     if not left:
         for slug in sorted(lossy):
             run.known(slug, 'frames lost by the receive path are not executed (see C06/C09): the addressed unit misses those writes', case)
@@ -277,6 +286,9 @@ def run(run):
     for front, framing in FRONTS:
         for i in range(n):
             case = SH.gen_case(r, front, framing, uniq, data_only=(i % 4 != 0), max_per_read=3 if i % 3 == 0 else 1)
+            if i % 6 == 5:
+                SH.add_failing(r, case, i // 6)       # one hosted unit's datastore raises on every access
+                run.count('histories_with_failing_datastore')
             ok = check(run, case)
             run.case(h64(repr(case)), not case['layout']['single'] or any(fr[0] == 0 for rd in case['reads'] for fr in rd),
                      sample={'front': front, 'framing': framing, 'hosted': sorted(case['layout']['units']), 'single': case['layout']['single'], 'flags': case['flags'],
